@@ -12,7 +12,9 @@
                               of a bare mapping), LoaderCache.get_pype_loader (default loader)
   pypyr/config.py             Config.__init__: default_loader, pipelines_subdir
   pypyr/moduleloader.py       add_sys_path (_known_dirs test, exists test, the sys.path membership
-                              test, append, bookkeeping); `with _sys_path_lock:` is transparent
+                              test, append, bookkeeping); `with _sys_path_lock:` is transparent;
+                              get_module (exactly one importlib.import_module attempt per call,
+                              the handler only builds a message and raises; message text dropped)
 
 Proofs/GenC19Proofs.v proves every generated definition equal to the hand-written model of
 Model/Loader.v, so an edit to that source re-checks, or breaks, those lemmas.
@@ -1020,6 +1022,47 @@ def unit_moduleloader():
     return ['Definition gen_add_sys_path (st : sysst) (path : pyparent) : sysst :=\n  ' + body + '.']
 
 
+def unit_get_module():
+    """try: m = importlib.import_module(name); return m
+       except ModuleNotFoundError as err: <build message, log>; raise PyModuleNotFoundError(msg) from err
+    -> one import attempt per call, nothing else consulted or remembered"""
+    tree, modname = parse('pypyr/moduleloader.py')
+    imports = imported_names(tree)
+    fn = find(tree, 'get_module')
+    if [a.arg for a in fn.args.args] != ['module_abs_import']:
+        raise Untranslatable('get_module signature')
+    body = [s for s in fn.body if not skip(s)]
+    if len(body) != 1 or not isinstance(body[0], ast.Try) or body[0].orelse or body[0].finalbody:
+        raise Untranslatable('get_module: expected a single try/except')
+    tr = body[0]
+    tb = [s for s in tr.body if not skip(s)]
+    if not (len(tb) == 2 and isinstance(tb[0], ast.Assign) and isinstance(tb[0].targets[0], ast.Name)
+            and ast.unparse(tb[0].value) == 'importlib.import_module(module_abs_import)'
+            and isinstance(tb[1], ast.Return) and isinstance(tb[1].value, ast.Name)
+            and tb[1].value.id == tb[0].targets[0].id):
+        raise Untranslatable('get_module: the try body is not exactly `m = importlib.import_module(name); '
+                             'return m`')
+    if len(tr.handlers) != 1 or ast.unparse(tr.handlers[0].type) != 'ModuleNotFoundError':
+        raise Untranslatable('get_module: handlers')
+    hb = [s for s in tr.handlers[0].body if not skip(s)]
+    last = hb[-1] if hb else None
+    if not (isinstance(last, ast.Raise) and isinstance(last.exc, ast.Call) and isinstance(last.exc.func, ast.Name)
+            and imports.get(last.exc.func.id) == 'pypyr.errors.PyModuleNotFoundError'):
+        raise Untranslatable('get_module: the handler must end in raise PyModuleNotFoundError(...)')
+    for st in hb[:-1]:
+        for n in ast.walk(st):
+            if isinstance(n, ast.Call) and not (isinstance(n.func, ast.Attribute)
+                                                and isinstance(n.func.value, ast.Name) and n.func.value.id == 'logger'):
+                raise Untranslatable(f'get_module: handler calls {ast.unparse(n.func)}')
+            if isinstance(n, (ast.Global, ast.Nonlocal, ast.Return, ast.Raise, ast.Try, ast.While, ast.For)):
+                raise Untranslatable(f'get_module: handler statement {type(n).__name__}')
+            if isinstance(n, (ast.Attribute, ast.Subscript)) and isinstance(n.ctx, ast.Store):
+                raise Untranslatable('get_module: handler stores into an object')
+    return ['Definition gen_get_module (prim_import : string -> option string) (module_abs_import : string) '
+            ': res string :=\n  match prim_import module_abs_import with\n  | Some imported_module => Ok imported_module\n'
+            '  | None => Err "pypyr.errors.PyModuleNotFoundError" module_abs_import\n  end.']
+
+
 PRELUDE = '''(** Gen/GenC19.v — GENERATED by tools/py2coq_c19.py from the current source under the repository;
     do not edit.  A definition that could not be translated gets the suffix _UNTRANSLATED, which
     breaks every lemma of Proofs/GenC19Proofs.v that mentions the expected name. *)
@@ -1048,6 +1091,7 @@ Variable prim_add_sys_path : sysst -> pyparent -> sysst.
 '''
 
 UNITS = [('pypyr/moduleloader.py', unit_moduleloader, ['gen_add_sys_path']),
+         ('pypyr/moduleloader.py', unit_get_module, ['gen_get_module']),
          ('pypyr/config.py', unit_config, ['gen_config_default_loader', 'gen_config_pipelines_subdir']),
          ('pypyr/pipedef.py', unit_pipedef, ['gen_PipelineInfo', 'gen_PipelineFileInfo']),
          ('pypyr/loaders/file.py', unit_file, ['gen_find_pipeline', 'gen_get_pipeline_path',
